@@ -153,4 +153,5 @@ def run(chk):
 
 
 def safety_net(chk):
-    return validity_battery(chk.seed)
+    from sym import ptreplay
+    return validity_battery(chk.seed) or ptreplay.battery_receiver_history(chk.seed)
